@@ -229,6 +229,41 @@ def drive_map(item):
     return {"id": rid, "scn": dict(scn, variant=variant), "obs": {"names": names, "dup_rejected": dup}}
 
 
+def drive_defseq(item):
+    """A sequence of definition operations on one workflow; stops after the first one that raises."""
+    rid, scn, variant = item
+    from gwf import AnonymousTarget, Workflow
+    from gwf.exceptions import WorkflowError
+
+    conc = [{"n1": "alpha", "n2": "bravo", "n3": "alpha_0"}, {"n1": "foo_0", "n2": "foo_1", "n3": "Foo_0"}, {"n1": "a.b", "n2": "a", "n3": "b"}][variant % 3]
+    inv = {v: k for k, v in conc.items()}
+    wf = Workflow(working_dir="/p")
+    acc, results, errkind = [], [], ""
+    for k, op in enumerate(scn["ops"]):
+        names = [conc[n] for n in op["names"]]
+        try:
+            if op["op"] == "target":
+                res = [wf.target(names[0], inputs=[], outputs=["o%d" % k])]
+            elif op["op"] == "template":
+                res = [wf.target_from_template(names[0], AnonymousTarget(inputs=[], outputs=["o%d" % k], options={}))]
+            else:
+                res = list(wf.map(lambda x: AnonymousTarget(inputs=[], outputs=["o%d_%s" % (k, x)], options={}),
+                                  ["i%d" % j for j in range(len(names))], name=lambda idx, t: names[idx]))
+            acc.append(True)
+            results.append([inv.get(t.name, "?" + t.name) for t in res])
+        except WorkflowError:
+            acc.append(False)
+            errkind = "WorkflowError"
+            break
+        except Exception as exc:  # noqa: BLE001
+            acc.append(False)
+            errkind = type(exc).__name__
+            break
+    registered = sorted(inv.get(n, "?" + n) for n in wf.targets)
+    results += [[] for _ in range(len(scn["ops"]) - len(results))]
+    return {"id": rid, "scn": dict(scn, variant=variant), "obs": {"acc": acc, "results": results, "registered": registered, "errkind": errkind}}
+
+
 def drive_wd(item):
     """A real project on disk; files placed where the specification resolves them; `gwf status`
     and `gwf info` from the project root, a nested directory and an unrelated directory (-f)."""
@@ -299,7 +334,7 @@ def drive_wd(item):
     return {"id": rid, "scn": dict(scn, variant=variant), "obs": {"runs": runs}}
 
 
-DRIVERS = {"graph": drive_graph, "wd": drive_wd, "name": drive_name, "path": drive_path, "map": drive_map}
+DRIVERS = {"graph": drive_graph, "wd": drive_wd, "name": drive_name, "path": drive_path, "map": drive_map, "defseq": drive_defseq}
 
 
 def drive(item):
